@@ -95,6 +95,25 @@ pub struct FailSafe {
     breadcrumb: u64,
 }
 
+#[cfg(feature = "verif")]
+impl FailSafe {
+    /// `None` when idle, else `(fabric index, NOC flags bits, timeout secs, armed-at ticks)`;
+    /// plus the breadcrumb and the length of the staged root certificate.
+    pub fn verif_state(&self) -> (Option<(u8, u8, u16, u64)>, u64, usize) {
+        let armed = match &self.state {
+            State::Idle => None,
+            State::Armed(ctx) => Some((
+                ctx.fab_idx,
+                ctx.flags.bits(),
+                ctx.timeout_secs,
+                ctx.armed_at.as_ticks(),
+            )),
+        };
+
+        (armed, self.breadcrumb, self.root_ca.len())
+    }
+}
+
 impl FailSafe {
     #[inline(always)]
     pub const fn new() -> Self {
